@@ -728,7 +728,11 @@ class Frame:
                         cargs = self._closure_args_for(name, args, ai)
                         ch = self.closure_frame(a, cargs, site)
                         if ch is not None and ch is not self and site not in self.chain:
-                            ch._collect(emit, ctrl + (("closure", name, (), bb),))
+                            if name == "for_each" and ai == 1 and t.get("trait") == "core::iter::traits::iterator::Iterator":
+                                # `it.for_each(|x| body)` is `for x in it { body }`: same control entry, same element term
+                                ch._collect(emit, ctrl + (("loop", args[0], ("1",), bb, self.body.id),))
+                            else:
+                                ch._collect(emit, ctrl + (("closure", name, (), bb),))
                     elif isinstance(a, tuple) and a and a[0] == "map" and name in ("collect",):
                         pass
             if not inlined:
